@@ -11,8 +11,32 @@ from onsager import OnsagerCalc
 from onsager.crystalStars import PairState
 
 
+INPUT_MUTATIONS = []   # (function name, argument position) whenever a library call changed one of the caller's arrays
+
+
+def guard_inputs(obj, names):
+    """wrap the named bound methods of obj: after every call the caller's array arguments must be bit-identical to what
+    was passed in (a calculator must never write into its inputs; the first result would still look right)"""
+    for nm in names:
+        orig = getattr(obj, nm)
+        def wrapped(*a, __orig=orig, __nm=nm, **k):
+            snap = [np.array(x, copy=True) if isinstance(x, np.ndarray) else None for x in a]
+            ksnap = {kk: np.array(v, copy=True) for kk, v in k.items() if isinstance(v, np.ndarray)}
+            out = __orig(*a, **k)
+            for i, (x, y) in enumerate(zip(a, snap)):
+                if y is not None and not (x.shape == y.shape and np.array_equal(x, y, equal_nan=True)):
+                    INPUT_MUTATIONS.append((__nm, i))
+            for kk, y in ksnap.items():
+                if not (k[kk].shape == y.shape and np.array_equal(k[kk], y, equal_nan=True)):
+                    INPUT_MUTATIONS.append((__nm, kk))
+            return out
+        setattr(obj, nm, wrapped)
+    return obj
+
+
 def make(crys, chem, sl, jn, Nthermo, NGFmax=4):
-    return OnsagerCalc.VacancyMediated(crys, chem, sl, jn, Nthermo, NGFmax=NGFmax)
+    d = OnsagerCalc.VacancyMediated(crys, chem, sl, jn, Nthermo, NGFmax=NGFmax)
+    return guard_inputs(d, ["Lij", "preene2betafree", "makeLIMBpreene", "maketracerpreene"])
 
 
 def random_thermo(d, rng, interact=True, site_energies=True, dyadic=False, tracer=False):
